@@ -178,7 +178,7 @@ func init() {
 		},
 		"(github.com/shopspring/decimal.Decimal).Truncate": func(a *Act, st *State, c *ssa.Function, x []Val, p tokenPos) Val {
 			if x[1].T == "8" {
-				return t1(app("trunc8", x[0].T), resType(c, 0))
+				return t1(app(a.u.D.Trunc8(), x[0].T), resType(c, 0))
 			}
 			f := a.u.D.Fun("dtrunc", []string{"Real", "Int"}, "Real")
 			return t1(app(f, x[0].T, x[1].T), resType(c, 0))
